@@ -78,10 +78,13 @@ def src_hash(mod, names):
 
 
 # ---------------------------------------------------------------------- symbolic inputs
-def set_exhaustive(nbits):
+def set_exhaustive(nbits, fold=True):
     """number of input bits up to which the encoder keeps complete truth tables (see bdag.RandomEvaluator); must be
-    called before the job creates its variables. Only the encoder's pruning uses the tables, never a verdict."""
+    called before the job creates its variables. Only the encoder's pruning uses the tables, never a verdict.
+    fold=False: the tables answer feasibility questions (skip dead branches, stop loops) but guards are NOT simplified
+    semantically, so 'this is printed on every input' stays a formula that the solver has to decide."""
     type(E.rand).EXHAUSTIVE = nbits
+    E.dag.fold = fold
 
 
 def choice(vals, tag):
